@@ -250,6 +250,20 @@ class C09(Prop):
             top = N(rng.choice(['or', 'and']), V('s%d' % K), V('s1'))
             consts = []
             f = lang.inline(top, defs)
+        if rng.random() < 0.02:
+            # a wide main assertion: 20..90 conjuncts/disjuncts (named operations) before the reference to a sub-
+            # specification with a stateful operator (what a bounded per-update memo would forget)
+            N, V, C = lang.N, lang.V, lang.C
+            K = rng.choice([20, 40, 66, 90])
+            o = rng.choice(['and', 'or'])
+            body = N(rng.choice(['geq', 'leq']), V('y'), C(float(-1 if o == 'and' else 50)))
+            for i in range(2, K + 1):
+                body = N(o, body, N('geq' if o == 'and' else 'leq', V('y'), C(float(-i if o == 'and' else -50 - i))))
+            sa = N(rng.choice(['once', 'historically']), N(rng.choice(['geq', 'leq']), V('x'), C(0.5)),
+                   ivl=(0, rng.randint(2, 5))) if rng.random() < 0.8 else N('since', N('geq', V('x'), C(0.0)), N('leq', V('x'), C(1.0)))
+            top = N(o, body, V('sa')) if rng.random() < 0.7 else N(o, V('sa'), N(o, body, V('sa')))
+            defs, consts = [('sa', sa)], []
+            f = lang.inline(top, defs)
         wide_n = None
         if kind in ('dt_off', 'dt_on') and rng.random() < 0.06:
             # a wide window (13..200 samples) inside a named sub-specification that later assertions refer to once or
@@ -344,6 +358,8 @@ class C09(Prop):
             v.info['class:wide-window-in-a-named-sub-specification'] = 1
         if len(defs) >= 9:
             v.info['class:many-named-assertions'] = 1
+        if lang.size(top) >= 60 if hasattr(lang, 'size') else len(list(lang.walk(top))) >= 60:
+            v.info['class:wide-main-assertion'] = 1
         v.info['multi-ref'] = 1 if any(c >= 2 for c in refs.values()) else 0
         v.info['consts'] = 1 if case['consts'] else 0
         iasd = {}
